@@ -102,6 +102,16 @@ def _flag_in_callees(ctx, fq, flag, depth=2):
     return False
 
 
+def _column_domain(ctx, table, col):
+    """Finite value domain of a column for folding trigger conditions."""
+    if col == "state":
+        en = ctx.prog.enum({"file": "FileState", "step": "StepState"}[table])
+        return [m.value for m in en]
+    if col in ("detached", "deferred", "orphan"):
+        return [0, 1]
+    return [0, 1, 2]
+
+
 def rule_flag_coverage(ctx):
     """R-C10-1."""
     model, cat = ctx.sql, ctx.cat
@@ -161,6 +171,37 @@ def rule_flag_coverage(ctx):
                 ctx.check(how is not None, fq, construct,
                           f"write event on a column read by the definition of {dname} ({const}) without any path that sets {flag}: the cached value goes stale silently",
                           how or "", where=where)
+    # a flag trigger with a WHEN clause must fire for every change of its OF columns: the clause is folded over the
+    # value domains of the OLD/NEW columns it mentions and must be true wherever an OF column differs
+    n_when = 0
+    for name, tr in sorted(cat.triggers.items()):
+        if tr.op != "UPDATE" or tr.when is None or not re.search(r"UPDATE\s+step\s+SET\s+_check_\w+\s*=\s*1", tr.body, re.I):
+            continue
+        n_when += 1
+        refs = sorted(set(re.findall(r"\b(?:OLD|NEW)\s*\.\s*(\w+)", tr.when)))
+        rest = re.sub(r"\b(?:OLD|NEW)\s*\.\s*\w+", "", tr.when)
+        if re.search(r"\bSELECT\b|[A-Za-z_]\w*\s*\.\s*\w+", rest, re.I):
+            ctx.bad(f"trigger {name}", f"WHEN {tr.when}", "the WHEN clause of a flag trigger consults other rows: coverage of every change of the column cannot be shown", where=f"trigger {name}")
+            continue
+        dom = {}
+        for c in refs:
+            vals = _column_domain(ctx, tr.table, c)
+            dom[f"OLD.{c}"] = vals
+            dom[f"NEW.{c}"] = vals
+        tt = cat.truth_table(tr.when, dom)
+        names = list(dom)
+        missed = []
+        for combo, v in tt.items():
+            pt = dict(zip(names, combo))
+            changed = any(pt.get(f"OLD.{c}") != pt.get(f"NEW.{c}") for c in tr.of_cols if f"OLD.{c}" in pt)
+            if not tr.of_cols or not any(f"OLD.{c}" in pt for c in tr.of_cols):
+                changed = True
+            if changed and v is not True:
+                missed.append(pt)
+        ctx.check(not missed, f"trigger {name}", f"WHEN {' '.join(tr.when.split())} holds for every change of {tr.table}.{'/'.join(tr.of_cols)}",
+                  f"the flag trigger does not fire for {len(missed)} kind(s) of change, e.g. {missed[:2]}: the cached value goes stale silently", f"{len(tt)} points", where=f"trigger {name}")
+    if n_when < 2:
+        raise AnalysisError(f"only {n_when} conditional flag triggers found (2 confirmed by hand)")
     # the mirror column _has_hash
     for st in model.stmts:
         fq = st.site.func.fq
@@ -508,7 +549,7 @@ def rule_defer_cap(ctx):
 
 
 RULES = [
-    Rule("R-C10-1", "every write event on a read-set column of a cached definition sets its flag", rule_flag_coverage, min_instances=60),
+    Rule("R-C10-1", "every write event on a read-set column of a cached definition sets its flag", rule_flag_coverage, min_instances=62),
     Rule("R-C10-1s", "Step overrides flag the subtree; hold/release flag on 0<->1", rule_step_overrides, min_instances=8),
     Rule("R-C10-1v", "file.state writers never cross the VOLATILE boundary", rule_volatile_boundary, min_instances=5),
     Rule("R-C10-2", "flags are consumed before every dispatch decision", rule_consume_flags, min_instances=5),
@@ -525,6 +566,8 @@ def _drop_trigger(name):
 
 
 MUTANTS = [
+    Mutant("when-narrowed-detached", "step.py", replace_once("AFTER UPDATE OF detached ON node\nWHEN OLD.detached != NEW.detached\nBEGIN\n    UPDATE step SET _check_ready = 1", "AFTER UPDATE OF detached ON node\nWHEN NEW.detached AND NOT OLD.detached\nBEGIN\n    UPDATE step SET _check_ready = 1"), ("R-C10-1",)),
+    Mutant("when-narrowed-file-state", "step.py", sub_once(r"(CREATE TRIGGER IF NOT EXISTS step_file_check_ready_upd AFTER UPDATE OF state ON file\n)WHEN OLD.state != NEW.state", r"\1WHEN OLD.state != NEW.state AND NEW.state != " + "{FileState.OUTDATED.value}"), ("R-C10-1",)),
     Mutant("drop-trigger-dependency-ins", "step.py", _drop_trigger("step_dependency_check_after_ins"), ("R-C10-1",)),
     Mutant("drop-trigger-file-upd", "step.py", _drop_trigger("step_file_check_ready_upd"), ("R-C10-1",)),
     Mutant("drop-trigger-node-detached", "step.py", _drop_trigger("step_node_check_ready_detached"), ("R-C10-1",)),
